@@ -99,15 +99,19 @@ def addOpt (S : SR K) (acc : Option (List K)) (t : Option (List K)) : Option (Li
     | none => some t
     | some a => some (addT S a t)
 
-/-- `J(fgg, x, inputs)[X, Y]`: sum over the rules of `X` and their edges labelled `Y` of the
-sum-product of the remaining edges with the edge's nodes kept as extra externals; shape
-`type X ++ type Y`, flat row-major; `none` = no term (zero) -/
-def jac (S : SR K) (G : Grammar K) (x : Val K) (X Y : Nat) : Option (List K) :=
+/-- the block of the Jacobian of `F[X]` with respect to the edge label `l` (a nonterminal of the component: `Jx`; any
+other label, terminals included: `J_inputs`): sum over the rules of `X` and their edges labelled `l` of the
+sum-product of the remaining edges with the edge's nodes kept as extra externals; shape `type X ++ type l`, flat
+row-major; `none` = no term (zero) -/
+def jacLabel (S : SR K) (G : Grammar K) (x : Val K) (X l : Nat) : Option (List K) :=
   (G.rulesOf X).foldl (fun acc r =>
     (List.range r.edges.length).foldl (fun acc i =>
       match r.edges[i]? with
-      | some e => if e.1 == G.T + Y then addOpt S acc (jacTerm S G x r i) else acc
+      | some e => if e.1 == l then addOpt S acc (jacTerm S G x r i) else acc
       | none => acc) acc) none
+
+/-- `J(fgg, x, inputs)[X, Y]` for nonterminals `X`, `Y` -/
+def jac (S : SR K) (G : Grammar K) (x : Val K) (X Y : Nat) : Option (List K) := jacLabel S G x X (G.T + Y)
 
 /-- the cells `(X, i)` of a component, in component order -/
 def compCells (G : Grammar K) (comp : List Nat) : List (Nat × Nat) :=
